@@ -83,6 +83,65 @@ def shorter_bodies(st, v):
     return out
 
 
+def rec_paths(s, v, path=()):
+    """paths to record nodes (with at least one member) inside (s, v)"""
+    out = []
+    k = s[0]
+    t, xs = v
+    if t != "L":
+        return out
+    if k == "rec":
+        if xs:
+            out.append(path)
+        for i, (f, x) in enumerate(zip(s[1], xs)):
+            out += rec_paths(f, x, path + (i,))
+    elif k == "arr":
+        for i, x in enumerate(xs):
+            out += rec_paths(s[1], x, path + (i,))
+    return out
+
+
+def cut_at(v, path, n):
+    t, xs = v
+    if not path:
+        return (t, xs[:n])
+    return (t, xs[:path[0]] + [cut_at(xs[path[0]], path[1:], n)] + xs[path[0] + 1:])
+
+
+def node_at(v, path):
+    for i in path:
+        v = v[1][i]
+    return v
+
+
+def oracle_short_list(res, s, w, label=None, decode=None):
+    """a record list that announces FEWER members than the structure defines is legal E5 (S7F6 `L,0`): the announced members are
+    decoded, the other fields stay as a fresh object has them, and the position is the end of the item — nothing beyond it is read"""
+    enc = K.own_encode(w)
+    tail = bytes([0x41, 0x01, 0x5A])          # a following item that must not be swallowed
+    case = {"kind": "shortlist", "struct": js(s), "val": js(w), "fn": label}
+    want = K.show_in(s, K.norm_val(w))
+    for data in (enc, enc + tail):
+        try:
+            if decode is not None:
+                got, pos = decode(data)
+            else:
+                obj = K.fresh_var(s)
+                pos = obj.decode(data, 0)
+                got = K.show_obj(obj)
+        except Exception as exc:  # noqa: BLE001
+            res.violate("short-list-rejected", f"a list with fewer members than the structure defines is refused: {type(exc).__name__}: {exc}",
+                        dict(case, data=data.hex()), want[:200])
+            return
+        if got != want:
+            res.violate("short-list-wrong-value", "a list with fewer members than the structure defines is decoded to something else",
+                        dict(case, data=data.hex()), want[:200], got[:200])
+            return
+        if pos is not None and pos != len(enc):
+            res.violate("decode-wrong-position", "decoding a short list read beyond the item", dict(case, data=data.hex()), len(enc), pos)
+            return
+
+
 def oracle_decode_sequence(res, cls_name, bodies):
     """several messages of ONE stream/function decoded through ONE StreamsFunctions container: every result equals what a fresh
     container gives for that body, earlier results are not changed by later decodes, and results are distinct objects"""
@@ -121,6 +180,19 @@ def oracle_decode_sequence(res, cls_name, bodies):
 
 
 def replay_case(res, case):
+    if case.get("kind") == "shortlist":
+        if case.get("fn"):
+            import c03_fn
+            from secsgem.secs.functions import StreamsFunctions
+            from secsgem.secs.functions._all import secs_streams_functions
+            cls = next(c for c in secs_streams_functions if c.__name__ == case["fn"])
+
+            def dec(data, cls=cls):
+                fn = StreamsFunctions().decode(c03_fn.message(cls.stream, cls.function, data))
+                return K.show_obj(fn.data), None
+            oracle_short_list(res, unjs(case["struct"]), unjs(case["val"]), case["fn"], dec)
+        else:
+            oracle_short_list(res, unjs(case["struct"]), unjs(case["val"]))
     if case.get("kind") == "sequence":
         oracle_decode_sequence(res, case["fn"], [bytes.fromhex(b) for b in case["bodies"]])
     if case.get("kind") == "decode":
@@ -149,6 +221,10 @@ def gen_wire_val(rng, big):
         vals.append(("F8", [b]))
     vals.append(("B", list(range(256))))
     vals.append(("A", list(range(256))))
+    for cps in K.NUL_TEXTS:                               # text ending in / made of NUL characters (legal characters of A and J)
+        vals.append(("A", cps))
+        vals.append(("J", cps))
+        vals.append(("L", [("A", cps), ("U1", [1]), ("L", [("J", cps)])]))
     vals.append(K.deep_val(rng, 6))
     vals.append(K.deep_val(rng, 30, "U2"))
     vals.append(("L", [("U1", [i]) for i in range(255)]))
@@ -213,6 +289,29 @@ def main():
                 if not K.conforms(s, v):
                     continue
             items.append((s, v, enc))
+    # record lists announcing fewer members than the structure defines (top level and nested)
+    n_short = 0
+    for s_, v_, _ in list(items):
+        if K.size_of(v_) > 60 or K.has_nan(v_):
+            continue
+        paths = rec_paths(s_, v_)
+        if not paths:
+            continue
+        for path in rng.shuffle(paths)[:2]:
+            full = len(node_at(v_, path)[1])
+            for n in sorted({0, full - 1, rng.below(full)}):
+                oracle_short_list(res, s_, cut_at(v_, path, n))
+                n_short += 1
+    for fs in ([("leaf", "A", -1), ("leaf", "A", -1), ("leaf", "U1", -1)], [("leaf", "B", -1), ("any",)], [("arr", ("rec", [("leaf", "A", -1), ("leaf", "A", -1)]), -1), ("leaf", "U2", -1)]):
+        st = ("rec", fs)
+        v = ("L", [("A", [49]), ("A", [50, 51]), ("U1", [7])]) if fs[0][1] == "A" else \
+            ("L", [("B", [1]), ("U4", [9])]) if fs[0][0] == "leaf" else ("L", [("L", [("L", [("A", [49])]), ("L", []), ("L", [("A", [50]), ("A", [51, 52])])]), ("U2", [5])])
+        for n in range(len(v[1]) + 1):
+            oracle_short_list(res, st, ("L", v[1][:n]))
+            n_short += 1
+    res.bump("short_lists", "decoded", n_short)
+    res.evaluations += n_short
+
     # every format code x every number of length bytes, systematically
     for t in K.LEAVES:
         w = K.WIDTH[t]
@@ -309,6 +408,7 @@ def main():
 
     # ------------------------------------------------------------------ two messages of one function through one container
     import c03_fn
+    from secsgem.secs.functions import StreamsFunctions
     from secsgem.secs.functions._all import secs_streams_functions
     n_seq = 0
     for cls in secs_streams_functions:
@@ -323,6 +423,11 @@ def main():
             full = K.own_encode(v, rng, noncanon=30)
             for w in shorter_bodies(st, v) or [c03_fn.gen_for(rng, st)]:
                 short = K.own_encode(w)
+                if st[0] == "rec" and not K.has_nan(w):
+                    def dec(data, cls=cls):
+                        fn = StreamsFunctions().decode(c03_fn.message(cls.stream, cls.function, data))
+                        return K.show_obj(fn.data), None
+                    oracle_short_list(res, st, w, cls.__name__, dec)
                 oracle_decode_sequence(res, cls.__name__, [full, short])
                 oracle_decode_sequence(res, cls.__name__, [short, full, short])
                 n_seq += 2
